@@ -423,3 +423,54 @@ def rule_lex(ctx):
     res.notes.append("adjacency cases checked: %d" % n)
     res.require_floor(50)
     return res
+
+
+def rule_litfmt(ctx):
+    """R-LITFMT: the printed form of integer literals re-lexes as the grammar's literal"""
+    from ..interp import Adt as _Adt, Sym as _Sym
+    g = grammar.load(ctx)
+    lexer = Lexer(g)
+    res = RuleResult("R-LITFMT", "`Print for Lit` folded on boundary literals (every digit count from 1 to 19, both signs, zero, i64::MAX) and the "
+                     "text re-lexed with the grammar's own terminals (longest match): it must be the tokens of the `Lit` productions - an "
+                     "optional `-` followed by exactly one `Num` token - so that formatting a literal yields a literal again")
+    # the terminal used by the Num production
+    num_alts = (g.prods.get("Num") or {}).get("alts", [])
+    num_terms = {t for a in num_alts for t in a.terminals()}
+    if not num_terms:
+        raise AnalysisError("R-LITFMT: the grammar has no Num production")
+    key = "<fun::syntax::terms::literal::Lit as scc_printer::types::Print>::print"
+    f = ctx.fx.fn(key)
+    values = [0, (1 << 63) - 1]
+    for d in range(1, 20):
+        v = int("1" + "0" * (d - 1)) if d > 1 else 7
+        w = int("9" * d) if d < 19 else (1 << 63) - 1
+        for x in (v, w, int("25" + "0" * (d - 2)) if d > 2 else v):
+            values += [x, -x]
+    values = sorted({x for x in values if -(1 << 63) < x < (1 << 63)})
+    bad = []
+    for v in values:
+        lit = _Adt("fun::syntax::terms::literal::Lit", "Lit", {"span": _Sym("span"), "lit": v})
+        from ..backend import fold as _fold
+        _, outs = _fold(ctx, key, [lit, _Sym("cfg"), _Sym("alloc")])
+        outs = [o for o in outs if not getattr(o, "diverged", None)]
+        if len(outs) != 1 or not isinstance(outs[0].result, docmodel.Doc):
+            raise AnalysisError("R-LITFMT: Print for Lit could not be folded on %d" % v)
+        text = docmodel.render(outs[0].result)
+        if "<" in text and "$" in text:
+            raise AnalysisError("R-LITFMT: the printed form of %d is not concrete: %s" % (v, text))
+        toks = lexer.lex(text)
+        names = [t[1] for t in toks]
+        want_neg = v < 0
+        ok = (len(names) == (2 if want_neg else 1)) and (not want_neg or names[0].strip('"') == "-") and (names[-1] in num_terms)
+        if not ok:
+            bad.append((v, text, names))
+    if bad:
+        v, text, names = bad[0]
+        res.inst("Lit", f["sp"]["file"], f["sp"]["line"], "violation", "%d of %d literals" % (len(bad), len(values)))
+        res.violate("Lit", "the literal %d is printed as `%s`, which lexes as %s, not as %s the literal token: the formatted program does not parse back "
+                    "to the same literal [%d of %d boundary literals wrong]" % (v, text, names, "`-` followed by " if v < 0 else "", len(bad), len(values)),
+                    f["sp"]["file"], f["sp"]["line"])
+    else:
+        res.inst("Lit", f["sp"]["file"], f["sp"]["line"], "ok", "%d boundary literals" % len(values))
+    res.require_floor(1)
+    return res
